@@ -34,7 +34,8 @@ REQUIRED = ["contract:Assertion.set_p_values", "contract:Audit.summarize_status"
             "mixed_audit_polling_contest_among_comparison_contests", "status_asked_for_copied_contests_with_other_limits",
             "reset_from_a_state_with_p_values_but_empty_histories",
             "status_asked_with_a_limit_within_one_ulp_of_the_measured_risk", "sampled_cards_with_the_contest_outside_its_own_sample_seen",
-            "status_asked_after_p_values_changed_without_a_new_evaluation"]
+            "status_asked_after_p_values_changed_without_a_new_evaluation",
+            "sample_handed_over_in_another_order_than_sample_number_order"]
 ASSUMPTIONS = ["samples have at least one observation per assertion", "summarize_status prints: stdout is swallowed, not parsed"]
 N_CASES = {"quick": 9600, "thorough": 80000}
 
@@ -276,6 +277,13 @@ def run_case(es, rec):
             if not ok:
                 return
             m, c = ms
+            if rng.random() < 0.3 and "_exact_k" not in es and len(m) > 2:
+                # the sample handed over in retrieval order (by storage location, or with later rounds appended) rather than
+                # in sample-number order: the pairs stay matched, and "that assertion's data" are still the contest's own cards
+                perm = list(range(len(m)))
+                rng.shuffle(perm)
+                m, c = [m[i] for i in perm], [c[i] for i in perm]
+                rec.count("sample_handed_over_in_another_order_than_sample_number_order")
             if rng.random() < 0.3:
                 # the test objects hold a bound other than the one that applies now (objects first used under another
                 # audit type, margins revised since, ...): the recorded p-value must still be what the configured test
